@@ -22,8 +22,10 @@ def cases(tier, inst) -> Iterator[dict]:
             T = G.temps(n, "uniform")
             lad = list(G.ladders(T, max_levels, 0))
             for li, levels in enumerate(lad):
-                for glide in ("iso", "glide"):
-                    if glide == "glide" and li % 3 != 0 and tier == "quick":
+                for glide in ("iso", "glide", "mixed"):
+                    if glide in ("glide", "mixed") and li % 3 != 0 and tier == "quick":
+                        continue
+                    if glide == "mixed" and len(levels) < 2:
                         continue
                     for dt in ((0.0,) if (tier == "quick" or li % 2) else (0.0, 2.5)):
                         yield {"H": list(v), "levels": levels, "glide": glide, "dt": dt}
@@ -38,16 +40,27 @@ def execute(case):
     H = case["H"]
     n = len(H)
     T = G.temps(n, "uniform")
-    g = ISO if case["glide"] == "iso" else 10.0
     dt = case["dt"]
     levels = sorted(case["levels"], reverse=True)
+    # glide per level: 'iso' = 0.1 K everywhere, 'glide' = 10 K everywhere, 'mixed' = the lowest-grade level isothermal and
+    # every higher-grade level gliding (a loaded isothermal level below a gliding one)
+    def glide_of(L, side):
+        if case["glide"] == "iso":
+            return ISO
+        if case["glide"] == "glide":
+            return 10.0
+        lowest = min(levels) if side == "hot" else max(levels)
+        return ISO if L == lowest else 10.0
+    gh = {L: glide_of(L, "hot") for L in levels}
+    gc = {L: glide_of(L, "cold") for L in levels}
+    g = max(gh.values())
     # the same shifted levels are offered on both sides
-    hot_u = G.make_utilities([(L + dt, L + dt - g, dt) for L in levels], hot=True)      # shifted range [L-g, L]
-    cold_u = G.make_utilities([(L - dt, L - dt + g, dt) for L in levels], hot=False)    # shifted range [L, L+g]
+    hot_u = G.make_utilities([(L + dt, L + dt - gh[L], dt) for L in levels], hot=True)      # shifted range [L-g, L]
+    cold_u = G.make_utilities([(L - dt, L - dt + gc[L], dt) for L in levels], hot=False)    # shifted range [L, L+g]
     pt = G.make_table(T, H)
     # precondition of the targeting step in the pipeline: the temperature grid contains every utility temperature
     # (the grid is built from process AND utility streams), so the rows are inserted first (C08-checked operation)
-    pt.insert_temperature_interval([x for L in levels for x in (L, L - g, L + g)])
+    pt.insert_temperature_interval([x for L in levels for x in (L, L - gh[L], L + gc[L])])
     pt = get_additional_GCCs(pt)
     get_utility_targets(pt, None, hot_u, cold_u, True)
 
@@ -57,7 +70,6 @@ def execute(case):
     bps = pf.breakpoints()
     Th, Tc = T0[pf.hot_i], T0[pf.cold_i]
     Qh, Qc = H0[0], H0[-1]
-    gF = F(str(g))
 
     def prof_hot(t):
         return pf.value(t) if t >= Th else F(0)
@@ -66,8 +78,8 @@ def execute(case):
         return pf.value(t) if t <= Tc else F(0)
 
     Ls = [F(str(L)) for L in levels]
-    hot_ranges = [(L - gF, L) for L in sorted(Ls)]                   # lowest grade (coldest) first
-    cold_ranges = [(L, L + gF) for L in sorted(Ls, reverse=True)]    # lowest grade (hottest) first
+    hot_ranges = [(F(str(L)) - F(str(gh[L])), F(str(L))) for L in sorted(levels)]                  # lowest grade (coldest) first
+    cold_ranges = [(F(str(L)), F(str(L)) + F(str(gc[L]))) for L in sorted(levels, reverse=True)]   # lowest grade (hottest) first
     exp_hot = sequential_maxima(prof_hot, bps, hot_ranges, Qh, "hot")
     exp_cold = sequential_maxima(prof_cold, bps, cold_ranges, Qc, "cold")
     # observed duties in the same order
